@@ -243,10 +243,12 @@ fn run_case(f: &Fault, pool: &[Decl], c: &CaseSpec) -> Outcome {
     }
 }
 
-pub fn cases(thorough: bool) -> (Vec<Fault>, Vec<Decl>, Vec<CaseSpec>) {
+pub fn cases(deep: bool) -> (Vec<Fault>, Vec<Decl>, Vec<CaseSpec>) {
+    // quick = the former thorough tier (3 companions, 4 files); thorough = 4 companions, 5 files
+    let thorough = true;
     let fs = faults();
     let pool = companions_pool();
-    let max_comp = if thorough { 3 } else { 2 };
+    let max_comp = if deep { 4 } else { 3 };
     let mut out = vec![];
     // companion lists: prefixes of the pool in dependency order (so that they are valid on their own), plus the name user
     let mut comp_lists: Vec<Vec<usize>> = vec![vec![]];
@@ -297,7 +299,7 @@ pub fn cases(thorough: bool) -> (Vec<Fault>, Vec<Decl>, Vec<CaseSpec>) {
                         ci += 1;
                     }
                 }
-                let max_files = if thorough { 4 } else { 3 };
+                let max_files = if deep { 5 } else { 4 };
                 for files in set_partitions(total, max_files) {
                     // a file-level fault is a file of its own
                     if f.file_level {
@@ -322,8 +324,8 @@ pub fn run(ctx: &mut Ctx) {
     let (fs, pool, specs) = cases(thorough);
     ctx.rule = "faulty unit (4 file-level faults, 7 independent declaration-level faults, same-name pairs: 10 declaration forms x {identical, different body, different case} and 18 cross-kind pairs) x companion lists (prefixes of a valid dependency chain, and companions that use the duplicated name) x every position of the faulty declarations x every set partition into files x every file iteration order; distinct = distinct (fault, companions, positions, partition, order)".into();
     ctx.bounds.insert("faults".into(), json!(fs.len()));
-    ctx.bounds.insert("max_companions".into(), json!(if thorough { 4 } else { 4 }));
-    ctx.bounds.insert("max_files".into(), json!(if thorough { 4 } else { 3 }));
+    ctx.bounds.insert("max_companions".into(), json!(if thorough { 5 } else { 4 }));
+    ctx.bounds.insert("max_files".into(), json!(if thorough { 5 } else { 4 }));
     ctx.assumptions.push("file iteration order is owned through the H2 seam (all permutations); 'undeclared' codes are exempt from monotonicity as the property says; the companions are valid on their own (asserted)".into());
     // the companions alone must be valid (non-vacuity / soundness of the monotonicity argument)
     for k in 1..=pool.len() {
@@ -386,7 +388,7 @@ pub fn run(ctx: &mut Ctx) {
     ctx.transitions += topo_checked;
 
     // (6) the same through the real binary for a systematic subset (random hash order: any enumerated order may be hit)
-    let stride = (specs.len() / if thorough { 300 } else { 100 }).max(1);
+    let stride = (specs.len() / if thorough { 600 } else { 300 }).max(1);
     let subset: Vec<usize> = (0..specs.len()).filter(|i| i % stride == 0).collect();
     let scratch = Scratch::new("c03");
     let cli_res: Vec<(usize, Option<String>)> = subset
